@@ -67,7 +67,7 @@ def to_units(data, B, cache):
     if len(data) % B:
         return None
     out = []
-    for o in range(0, len(data), B):
+    for o in range(0, min(len(data), 64 * B), B):       # (more than 64 units is surplus whatever it is: the tail is not looked at)
         out.append(cache.get(data[o:o + B], -9))
     return out
 
@@ -195,6 +195,36 @@ class ScriptSock:
         raise ERR[b["k"]]()
 
 
+class OtherStream:
+    """a socket of an earlier, unrelated connection: delivers bytes that occur in no scripted stream, in two pieces, and then
+    fails; nothing of it may show up in a later read on another socket"""
+    family = socket.AF_INET
+
+    def __init__(self, n, fail):
+        self.left, self.fail = n, fail
+
+    def gettimeout(self):
+        return 5.0
+
+    def recv(self, size, flags=0):
+        if self.fail and self.left <= 3:
+            raise OSError(errno.ECONNRESET, "reset by peer")
+        k = max(1, min(size, self.left) // 2) if self.left > 1 else min(size, self.left)
+        self.left -= k
+        return b"\xee" * k
+
+
+def warm_up(socketutil, case):
+    """every recorded read is preceded by a read on another socket through the same code path (one that completes, or one that
+    breaks off half way, in turn): a read must start from nothing"""
+    ROT[0] += 1
+    fail = ROT[0] % 2 == 0
+    try:
+        socketutil.receive_data(OtherStream(7, fail), 7)
+    except Exception:
+        pass
+
+
 def run_case(socketutil, errors, case):
     n, B, kind = case["n"], case["B"], case["kind"]
     sock = ScriptSock(case["s"], B, None if case.get("blocking") else 5.0, n + 3)
@@ -202,6 +232,7 @@ def run_case(socketutil, errors, case):
     try:
         if kind == "recv":
             socketutil.USE_MSG_WAITALL = bool(case["waitall"])
+            warm_up(socketutil, case)
             data = socketutil.receive_data(sock, n * B)
             u = to_units(data, B, sock.cache)
             tr["outcome"] = "return"
